@@ -15,6 +15,8 @@ import Driver.C16
 import Driver.C17
 import Driver.C19
 import Driver.C20
+import Driver.C05
+import Driver.C18
 open Lean
 
 def dispatch (p op : String) (c i : Json) : Except String (Json × String) :=
@@ -36,6 +38,8 @@ def dispatch (p op : String) (c i : Json) : Except String (Json × String) :=
   | "C17" => D17.handle op c i
   | "C19" => D19.handle op c i
   | "C20" => D20.handle op c i
+  | "C05" => D05.handle op c i
+  | "C18" => D18.handle op c i
   | _ => throw s!"unknown property {p}"
 
 def handleLine (line : String) : String :=
